@@ -11,7 +11,8 @@ namespace Noulith.DriverC13
 open Noulith Noulith.SeqLib
 
 def parseArg (s : String) : Option Arg :=
-  if s.startsWith "f:" then
+  -- `f:<16 hex digits>` is a float, every other `f:…` a closure
+  if s.startsWith "f:" && !(s.length == 18 && (s.drop 2).toString.toList.all Parse.isHex) then
     let rest := (s.drop 2).toString
     match rest.splitOn ":" with
     | [name] => some (.f ⟨name, .null⟩)
